@@ -34,6 +34,9 @@ var c06Operands = [][2]string{
 	{"a", "a"}, {"b", "b"}, {"c", "c"}, {"d", "d"}, {"1", "1"}, {"2", "2"}, {"-3", "-3"}, {"h.x.y", "h.x.y"}, {"(f a)", "(f a)"},
 	{"q[1]", "(arrayidx q [1])"}, {"q[i+1]", "(arrayidx q [(+ i 1)])"}, {"{a + b}", "(infix [a + b])"}, {"2.5", "2.5"}, {"1e3", "1e+03"}, {"1e-3", "1e-03"},
 	{"not a", "(not a)"}, {"q[1:2]", "(arrayidx q [1 : 2])"}, {"q[i]", "(arrayidx q [i])"}, {"(tr 7 b)", "(tr 7 b)"}, {"h.x", "h.x"}, {"-1", "-1"}, {"q[ 0 ]", "(arrayidx q [0])"},
+	// postfix chains: a selector after an index or a call, an index after a dotted path or another index, open slices
+	{"recs[1].b", "(hashidx (arrayidx recs [1]) .b)"}, {"(g a).b", "(hashidx (g a) .b)"}, {"h.k[0]", "(arrayidx h.k [0])"}, {"m[0][1]", "(arrayidx (arrayidx m [0]) [1])"},
+	{"recs[0].c.d", "(hashidx (arrayidx recs [0]) .c.d)"}, {"q[i:]", "(arrayidx q [i :])"}, {"q[:i]", "(arrayidx q [: i])"}, {"q[i:j]", "(arrayidx q [i : j])"}, {"q[i:j][0]", "(arrayidx (arrayidx q [i : j]) [0])"},
 }
 
 type c06tok struct {
@@ -187,7 +190,7 @@ func c06Build(c *core.Ctx, i int) c06case {
 	return c06case{kind: "sem", sem: i - (n1 + n2 + n3 + nrand)}
 }
 
-const c06Setup = "(def a 6) (def b 4) (def c 3) (def d 2) (def i 1) (def q [10 20 30 40]) (def h (hash x: (hash y: 5))) (defn f [z] (* z 10))\n"
+const c06Setup = "(def a 6) (def b 4) (def c 3) (def d 2) (def i 1) (def j 3) (def q [10 20 30 40]) (def h (hash x: (hash y: 5) k: [8 9])) (defn f [z] (* z 10)) (def recs [(hash b: 3 c: (hash d: 4)) (hash b: 7 c: (hash d: 2))]) (defn g [z] (hash b: (+ z 1))) (def m [[1 2] [3 4]])\n"
 
 func c06Run(c *core.Ctx, i int) *core.Result {
 	cs := c06Build(c, i)
@@ -600,6 +603,22 @@ func c06Sem(c *core.Ctx, i int, k int) *core.Result {
 		text = fmt.Sprintf("{q := [%d %d %d %d]; h := (hash x: (hash y: %d)); q[%d] = %d; h.x.y = h.x.y + 1; z := q[%d] * 2 + q[%d] ** 2 - h.x.y; z++; z}\n", arr[0], arr[1], arr[2], arr[3], w, i1, w, i1, i2)
 		arr[i1] = w
 		want = strconv.FormatInt(arr[i1]*2+arr[i2]*arr[i2]-(w+1)+1, 10)
+		if r.N(3) == 0 {
+			// a nested block that is translated again every time it runs (call arguments are compiled at run
+			// time): open and closed slices and selector chains must mean the same on every execution
+			lo, hi := 1+r.N(2), 3+r.N(2)
+			text = fmt.Sprintf("(def a [1 2 3 4 5]) (def recs [(hash b: 3) (hash b: 7)]) (defn ident [x] x) (defn tl [i] (ident {a[i:]})) (defn hd [j] (ident {a[:j]})) (defn sl [i j] (ident {a[i:j]})) (defn rb [i] (ident {1 + recs[i].b}))\n"+
+				"(def out []) (for [(def k 0) (< k 2) (def k (+ k 1))] (set out (concat out [(len (tl %d)) (len (hd %d)) (len (sl %d %d)) (rb 1) (rb 0)])))\n(list out (tl %d) (sl %d %d) {zz := 0; for t := 0; t < 3; t++ { zz += (len (ident {a[t:]})) }; zz})\n", lo, hi, lo, hi, lo, lo, hi)
+			one := fmt.Sprintf("%d %d %d 8 4", 5-lo, hi, hi-lo)
+			var tail, mid []string
+			for x := lo; x < 5; x++ {
+				tail = append(tail, fmt.Sprint(x+1))
+			}
+			for x := lo; x < hi; x++ {
+				mid = append(mid, fmt.Sprint(x+1))
+			}
+			want = fmt.Sprintf("([%s %s] [%s] [%s] 12)", one, one, strings.Join(tail, " "), strings.Join(mid, " "))
+		}
 	}
 	res.Input = text
 	res.Hash = core.HashOf(text)
